@@ -25,6 +25,10 @@ Streams
      with the lines of that group's nodes (ok_cues_strict); the document must equal the model's (model/TextWriteVtt.v, 305).
   G  (wave 7) style dictionaries with a colour (quotes of both kinds, & < >, tab / LF / CR, entity look-alikes) through the
      three DFXP writers: judged like A, payloads also through B (attribute values: Coq strict parser = lxml).
+  H  (round 3) ONE writer object (DFXP x3, SAMI) whose first write() RAISED while a style span was open (a bytes text node inside
+     an italic span; a pixel-positioned caption after a styled caption without video size), then writes a valid styled set:
+     judged exactly like a fresh writer's document (and literally against the model).  Also consecutive captions with equal
+     (start, end) whose EARLIER caption ends with a style-end node, through the merging writers (legacy / single DFXP, SRT).
 Known findings are recognised by the FAILURE (the observed lines equal the authored ones with a blank after every SAMI
 text node / with U+00A0 for every empty WebVTT text node), never by the shape of the input.
 """
@@ -591,6 +595,77 @@ def run_colors(ctx, res, n):
     return process_cases(ctx, res, cases)
 
 
+# ---- stream H (wave 7, round 3): writer OBJECTS with a past, and merged captions whose first ends with a style-end node ----
+def poisoned_first_write(w, mode):
+    """make the writer object `w` raise in the middle of a write(), while a style span is open; -> name of the exception"""
+    from pycaption.geometry import Layout, Point, Size, UnitEnum
+    it = ("s", True, True, False, False, None)
+    if mode == "bytes":          # an unwritable text node (bytes) inside an italic span
+        cs = G.capset([[it, ("t", "x"), ("t", "y"), ("s", False) + it[2:]], [("t", "z")]])
+        cs.get_captions("en-US")[0].nodes[2].content = b"bytes"
+    else:                        # a pixel-positioned caption after a styled caption, no video size: RelativizationError
+        cs = G.capset([[it, ("t", "x")], [("t", "y")]])
+        cap = cs.get_captions("en-US")[1]
+        lay = Layout(origin=Point(Size(10, UnitEnum.PIXEL), Size(10, UnitEnum.PIXEL)))
+        cap.layout_info = lay
+        for n in cap.nodes:
+            n.layout_info = lay
+    r = impl.call(lambda: w.write(cs))
+    return None if isinstance(r, Ok) else impl.ERR_NAMES.get(r.code, str(r.code))
+
+
+def used_writer_cases(specs, mode, names):
+    cases, raised = [], {}
+    for (fmt, W, kind, mreq) in WRITERS:
+        if fmt not in names:
+            continue
+        w = W()
+        raised[fmt] = poisoned_first_write(w, mode)
+        cs = G.capset(specs)
+        out = impl.call(lambda: w.write(cs))
+        cases.append((fmt, kind, mreq, specs, out))
+    return cases, raised
+
+
+def run_used_writers(ctx, res, n):
+    rng = ctx.rng
+    d = res["distribution"]
+    names = ("DFXP", "DFXP-legacy", "DFXP-single", "SAMI")
+    for mode in ("bytes", "pixels-no-video-size"):
+        cases, meta = [], []
+        for _ in range(n):
+            specs = [G.rand_caption_nodes(rng, adversarial=0.5, styles=0.9, intra=0.1) for _ in range(rng.randint(1, 3))]
+            specs[0] = [("s", True, True, False, False, None), ("t", rng.choice(["a & b", "x<y", "it"])), ("s", False, True, False, False, None),
+                        ("b",)] + specs[0]
+            cs_, raised = used_writer_cases(specs, mode, names)
+            for fmt, exc in raised.items():
+                key = "H_%s_first_write_%s" % (mode, ("raised_" + exc) if exc else "did_not_raise")
+                d[key] = d.get(key, 0) + 1
+            cases += cs_
+        before = len(res["violations"])
+        process_cases(ctx, res, cases)
+        for v in res["violations"][before:]:
+            if v.get("replay") == "write":
+                v["replay"], v["shape"], v["poison"] = "used-writer", "writer-reused-after-raise", mode
+    # consecutive captions with equal (start, end), the EARLIER one ending with a style-end node (merging DFXP writers)
+    cases = []
+    for _ in range(n):
+        first = G.rand_caption_nodes(rng, adversarial=0.4, styles=0.0, max_lines=2)
+        st = rng.choice([(True, False, False, None), (True, True, False, None), (False, False, False, "red")])
+        first = first[:-1] + [("s", True) + st, first[-1], ("s", False) + st] if first[-1][0] == "t" else \
+            first + [("s", True) + st, ("t", "end"), ("s", False) + st]
+        second = G.rand_caption_nodes(rng, adversarial=0.4, styles=rng.choice([0.0, 0.5]), max_lines=2)
+        specs = [first, second] + ([G.rand_caption_nodes(rng, styles=0.3)] if rng.random() < 0.4 else [])
+        spans = [G.times(0), G.times(0)] + ([G.times(0) if rng.random() < 0.5 else G.times(1)] if len(specs) > 2 else [])
+        for (fmt, W, kind, mreq) in WRITERS:
+            if fmt in ("DFXP-legacy", "DFXP-single", "SRT"):
+                cs = G.capset(specs, spans=spans)
+                out = impl.call(lambda: W().write(cs))
+                cases.append((fmt, kind, mreq, specs, out, spans))
+                d["H_merged_first_ends_with_style_end"] = d.get("H_merged_first_ends_with_style_end", 0) + 1
+    process_cases(ctx, res, cases)
+
+
 # ---- stream F (wave 7): WebVTT captions written as several cues (layout groups), junction-formed metacharacter sequences --
 JUNCTIONS = [("up --", "> down"), ("x -", "-> y"), ("a --", ">"), ("-", "->"), ("--", ">"), ("a -", "-", "> c"), ("-", "-", ">"),
              ("a &", "amp; b"), ("&", "lt;"), ("&", "gt;"), ("a &am", "p;"), ("&#", "60;"), ("&#x3", "C;"), ("&n", "bsp;"),
@@ -732,7 +807,7 @@ def run_layout_groups(ctx, res, nrand):
 
 def run(ctx):
     res = {"evaluations": 0, "nontrivial": set(), "violations": [], "disagreements": [], "distribution": {},
-           "streams": 6, "notes": []}
+           "streams": 7, "notes": []}
     records = run_sets(ctx, res, ctx.n(260, 6000))
     payloads = []
     for rec in records:
@@ -743,6 +818,7 @@ def run(ctx):
     run_strings(ctx, res, ctx.n(4, 5), ctx.n(500, 20000))
     run_histories(ctx, res, ctx.n(60, 1500))
     run_layout_groups(ctx, res, ctx.n(250, 8000))
+    run_used_writers(ctx, res, ctx.n(12, 800))
     res["rule"] = ("A: caption sets of 1-4 captions x 7 writers (DFXP, legacy DFXP, single-positioning DFXP, SAMI, WebVTT, "
                    "SRT, MicroDVD); non-trivial = a caption with a metacharacter (& < > quotes | { } \\ / ; # -) or more "
                    "than one line, counted as distinct (writer, authored lines, node shape). B: <p> payloads and mutated "
@@ -791,6 +867,12 @@ def replay(ctx, rec):
         lcaps = [[[(int(l), tuple(n)) for l, n in g] for g in groups] for groups in rec["input"]]
         v, _ = judge_groups(lcaps, groups_doc(lcaps))
         return (v is not None), (v or {}).get("what")
+    if rec.get("replay") == "used-writer":
+        specs = [[tuple(n) for n in sp] for sp in rec["input"]]
+        r = {"evaluations": 0, "nontrivial": set(), "violations": [], "disagreements": [], "distribution": {}, "notes": []}
+        process_cases(ctx, r, used_writer_cases(specs, rec["poison"], (rec["fmt"],))[0])
+        bad = [v for v in r["violations"] if v["kind"] not in ("blank-inserted-at-node-boundary", "nbsp-for-empty-text-node")]
+        return bool(bad), [v["what"][:200] for v in bad[:2]]
     if rec.get("replay") == "write":
         specs = [[tuple(n) for n in s] for s in rec["input"]]
         spans = [tuple(x) for x in rec["spans"]] if rec.get("spans") else None
